@@ -232,6 +232,15 @@ Apply(s, a) ==
             /\ (s.art[a.e].cert /\ s.art[a.e].hash # NoHash => ChainOK(s, a.e))
          THEN {[PutArt(s, a.e, s.art[a.e], FALSE) EXCEPT !.last = "env", !.flags = {}]}
          ELSE {}
+    [] a.name = "BreakSignature" -> \* NOT part of any checked alphabet.  A corruption that none of the facts C11's rule reads can
+                                   \* see: one octet of the signature value of e's certificate is changed and the file keeps its
+                                   \* modification time.  C11 ("regenerated if and only if") forbids selecting e, C12's convergence
+                                   \* demands it: with this action enabled TLC finds ConvergedAfterDefault violated whatever the plan
+                                   \* (bin/check selftest runs exactly that and expects the counterexample).  So the corruptions the
+                                   \* properties speak of are those that show in the rule's facts: missing parts, hash line, times.
+         IF a.e \in s.present /\ s.pc = "idle" /\ s.art[a.e].cert /\ s.art[a.e].sigok
+         THEN {[s EXCEPT !.art[a.e].sigok = FALSE, !.last = "env", !.flags = {}]}
+         ELSE {}
     [] a.name = "Replace" ->       \* user-supplied self-signed certificate + key, no hash line,
                                    \* made for the current configuration
          IF a.e \in s.present /\ s.pc = "idle"
@@ -347,6 +356,7 @@ DeleteAct   == "DeleteArt" \in EnvActs /\ \E e \in Ents : EnvStep([name |-> "Del
 TruncateAct == "Truncate" \in EnvActs /\ \E e \in Ents, c \in CutClasses : EnvStep([name |-> "Truncate", e |-> e, cut |-> c])
 StripKeyAct == "StripKey" \in EnvActs /\ \E e \in Ents : EnvStep([name |-> "StripKey", e |-> e])
 ResaveAct   == "ResaveArt" \in EnvActs /\ \E e \in Ents : EnvStep([name |-> "ResaveArt", e |-> e])
+BreakSigAct == "BreakSignature" \in EnvActs /\ \E e \in Ents : EnvStep([name |-> "BreakSignature", e |-> e])
 ReplaceAct  == "Replace" \in EnvActs /\ \E e \in Ents : EnvStep([name |-> "Replace", e |-> e])
 MakeCsrAct  == "MakeCsr" \in EnvActs /\ \E e \in Ents : EnvStep([name |-> "MakeCsr", e |-> e])
 EditProfileAct == "EditProfile" \in EnvActs /\ UsesProfile # {} /\ \E c \in Contents : EnvStep([name |-> "EditProfile", c |-> c])
@@ -364,7 +374,7 @@ WriteTornAct == "WriteTorn" \in FaultActs /\ \E c \in CutClasses : Step([name |-
 DieAct      == "Die" \in FaultActs /\ Step([name |-> "Die"])
 
 Next ==
-  \/ EditAct \/ TouchAct \/ DeleteAct \/ TruncateAct \/ StripKeyAct \/ ResaveAct \/ ReplaceAct \/ MakeCsrAct \/ EditProfileAct \/ ExpireAct \/ SetIssuerAct \/ RemoveConfigAct \/ AddConfigAct
+  \/ EditAct \/ TouchAct \/ DeleteAct \/ TruncateAct \/ StripKeyAct \/ ResaveAct \/ BreakSigAct \/ ReplaceAct \/ MakeCsrAct \/ EditProfileAct \/ ExpireAct \/ SetIssuerAct \/ RemoveConfigAct \/ AddConfigAct
   \/ StartRunAct \/ WriteOKAct \/ SignFailAct \/ WriteErrAct \/ WriteTornAct \/ DieAct
 
 vars == <<st, nenv>>
